@@ -102,16 +102,25 @@ impl Scope {
   }
   /// Pushes a context on the top of the scope stack.
   pub fn push(&self, ctx: FeelContext) {
-    self.contexts.borrow_mut().push(ctx);
     #[cfg(dmntk_verif)]
-    verif::emit("push", self.contexts.borrow().len(), "");
+    {
+      self.contexts.borrow_mut().push(ctx);
+      verif::emit("push", self.contexts.borrow().len(), "");
+      return;
+    }
+    #[cfg(not(dmntk_verif))]
+    self.contexts.borrow_mut().push(ctx)
   }
   /// Takes and returns a context from the top of the stack.
   pub fn pop(&self) -> Option<FeelContext> {
-    let popped = self.contexts.borrow_mut().pop();
     #[cfg(dmntk_verif)]
-    verif::emit(if popped.is_some() { "pop" } else { "pop-empty" }, self.contexts.borrow().len(), "");
-    popped
+    {
+      let popped = self.contexts.borrow_mut().pop();
+      verif::emit(if popped.is_some() { "pop" } else { "pop-empty" }, self.contexts.borrow().len(), "");
+      return popped;
+    }
+    #[cfg(not(dmntk_verif))]
+    self.contexts.borrow_mut().pop()
   }
   /// Peeks a to context from the top of the stack.
   /// If the stack is empty, the default context is returned.
